@@ -228,11 +228,62 @@ fn concurrent_stress(rep: &mut Report, rng: &mut Rng, rounds: usize) {
     rep.count("concurrent_histories", rounds as u64);
 }
 
+/// Targeted interleaving: the representative of a class keeps MOVING (a linker merges the class into
+/// ever smaller ids, growing the buffer on the way) while checker threads query pairs whose
+/// connectivity was settled before they started.  Any `false` for a settled pair, `true` for a
+/// stranger, or a non-monotone `find` has no linearisation point.
+fn moving_root(rep: &mut Report, rng: &mut Rng, rounds: usize) {
+    use std::sync::atomic::{AtomicBool, Ordering::SeqCst};
+    use std::sync::Arc;
+    for round in 0..rounds {
+        let n: u32 = [1 << 10, 1 << 12, 1 << 14][rng.below(3)];
+        let cap = [1usize, 64, 4096][rng.below(3)];
+        let uf = Arc::new(concurrent::UnionFind::<Id>::with_capacity(cap));
+        let (x, y) = (n + 10 + rng.below(50) as u32, n + 100 + rng.below(50) as u32);
+        let stranger = n + 500 + rng.below(50) as u32;
+        uf.union(Id::new(x), Id::new(y));
+        uf.find(Id::new(stranger));
+        let stop = Arc::new(AtomicBool::new(false));
+        let mut hs = vec![];
+        for t in 0..3 {
+            let uf = uf.clone(); let stop = stop.clone();
+            hs.push(std::thread::spawn(move || -> (u64, Option<String>) {
+                let mut calls = 0u64; let mut last = u32::MAX;
+                while !stop.load(SeqCst) {
+                    calls += 1;
+                    let (a, b) = if t == 0 { (x, y) } else { (y, x) };
+                    if !uf.same_set(Id::new(a), Id::new(b)) { return (calls, Some(format!("same_set({a},{b}) = false although they were unioned before the call began"))); }
+                    if uf.same_set(Id::new(a), Id::new(stranger)) { return (calls, Some(format!("same_set({a},{stranger}) = true although {stranger} was never unioned"))); }
+                    let f = uf.find(Id::new(a)).rep();
+                    if f > last { return (calls, Some(format!("find({a}) went from {last} up to {f}: representatives only decrease"))); }
+                    last = f;
+                }
+                (calls, None)
+            }));
+        }
+        // linker: descending merges (the class root moves at every step)
+        let step = 1 + rng.below(3) as u32;
+        let mut k = n;
+        while k > 0 { k = k.saturating_sub(step); uf.union(Id::new(x), Id::new(k)); }
+        stop.store(true, SeqCst);
+        let mut total = 0;
+        for h in hs { match h.join() { Ok((c, None)) => total += c, Ok((c, Some(bad))) => { total += c;
+                rep.violate("property", "uf-conc-linearizability", bad, json!({"scenario": "moving-root", "n": n, "capacity": cap, "x": x, "y": y, "stranger": stranger, "round": round})); }
+            Err(_) => rep.violate("property", "uf-conc-panic", "checker thread panicked".into(), json!({"scenario": "moving-root"})) } }
+        rep.evaluations += 1;
+        rep.count("moving_root_queries", total);
+        if total > 100 { rep.note_nontrivial(&("moving-root", round, n, cap)); }
+        // quiescent state
+        for z in [x, y] { if uf.find(Id::new(z)).rep() != 0 { rep.violate("property", "uf-conc-final", format!("after all unions find({z}) != 0"), json!({"scenario": "moving-root"})); } }
+    }
+}
+
 pub fn run(ctx: &Ctx) -> Report {
     let mut rep = Report::new("C17", "sequential: every op sequence over ids 0..3 up to the exhaustive length, plus seeded random sequences (ids up to 200, length up to 300), each compared op-by-op with the Lean model and with the partition specification; a case is non-trivial when it contains >= 2 unions of distinct ids (distinct by op list). concurrent: multi-thread histories with growth beyond capacity, non-trivial when two calls overlap in time");
     let mut rng = Rng::new(ctx.seed);
     exhaustive(&mut rep, 3, ctx.n(3, 4));
     random_seqs(&mut rep, &mut rng, ctx.n(300, 5000));
     concurrent_stress(&mut rep, &mut rng, ctx.n(40, 1500));
+    moving_root(&mut rep, &mut rng, ctx.n(30, 600));
     rep
 }
